@@ -914,7 +914,7 @@ func (e *Engine) builtin(fr *Frame, st *State, ins ssa.Instruction, b *ssa.Built
 	case "delete":
 		mt := cc.Args[0].Type().Underlying().(*types.Map)
 		if _, ok := mapKeySort(mt); ok {
-			e.mapDelete(st, mt, args[0].T, args[1].T)
+			e.mapDelete(st, mt, args[0].T, mapKey(mt, args[1]))
 		}
 		return Val{Fs: []Val{}}
 	case "print", "println":
